@@ -188,11 +188,14 @@ class Engine:
         return None
 
     def branch(self, cond):
+        raw = cond
         cond = z3.simplify(cond)
         if z3.is_true(cond):
             return True
         if z3.is_false(cond):
             return False
+        if not SIMPLIFY[0]:
+            cond = raw
         if self.judging:
             raise EngineError("an oracle tried to fork on a symbolic condition: " + str(cond)[:200])
         self.n_branches += 1
@@ -252,11 +255,14 @@ class Engine:
             if cond:
                 return
             raise PathAbort("assume false")
+        raw = cond
         cond = z3.simplify(cond)
         if z3.is_true(cond):
             return
         if z3.is_false(cond):
             raise PathAbort("assume false")
+        if not SIMPLIFY[0]:
+            cond = raw
         self.pc.append(cond)
         self.solver.add(cond)
         if self._model_says(cond) is not True:
@@ -631,13 +637,13 @@ class SymFloat:
             return SymFloat(s.k, None)
         if o.k != FIN:
             return SymFloat(o.k, None)
-        return SymFloat(FIN, z3.simplify(s.r + o.r))
+        return SymFloat(FIN, _s(s.r + o.r))
 
     __radd__ = __add__
 
     def __neg__(s):
         if s.k == FIN:
-            return SymFloat(FIN, z3.simplify(-s.r))
+            return SymFloat(FIN, _s(-s.r))
         return SymFloat({PINF: NINF, NINF: PINF, NAN: NAN}[s.k], None)
 
     def __pos__(s):
@@ -646,12 +652,18 @@ class SymFloat:
     def __sub__(s, o):
         if isinstance(o, _np.ndarray):
             return NotImplemented
-        return s + (-lift(o))
+        o = lift(o)
+        if not SIMPLIFY[0] and s.k == FIN and o.k == FIN:
+            return SymFloat(FIN, s.r - o.r)
+        return s + (-o)
 
     def __rsub__(s, o):
         if isinstance(o, _np.ndarray):
             return NotImplemented
-        return lift(o) + (-s)
+        o = lift(o)
+        if not SIMPLIFY[0] and s.k == FIN and o.k == FIN:
+            return SymFloat(FIN, o.r - s.r)
+        return o + (-s)
 
     def __mul__(s, o):
         if isinstance(o, _np.ndarray):
@@ -660,7 +672,7 @@ class SymFloat:
         if s.k == NAN or o.k == NAN:
             return SymFloat(NAN, None)
         if s.k == FIN and o.k == FIN:
-            return SymFloat(FIN, z3.simplify(s.r * o.r))
+            return SymFloat(FIN, _s(s.r * o.r))
         sa = s.k if s.k != FIN else _sign(s.r)
         sb = o.k if o.k != FIN else _sign(o.r)
         if sa == 0 or sb == 0:
@@ -697,7 +709,7 @@ class SymFloat:
         if s.k != FIN:
             so = _sign(o.r)
             return SymFloat(PINF if s.k * so > 0 else NINF, None)
-        return SymFloat(FIN, z3.simplify(s.r / o.r))
+        return SymFloat(FIN, _s(s.r / o.r))
 
     def __rtruediv__(s, o):
         if isinstance(o, _np.ndarray):
@@ -706,11 +718,14 @@ class SymFloat:
 
     def __abs__(s):
         if s.k == FIN:
-            c = z3.simplify(s.r >= 0)
+            craw = s.r >= 0
+            c = z3.simplify(craw)
             if z3.is_true(c):
                 return s
             if z3.is_false(c):
                 return -s
+            if not SIMPLIFY[0]:
+                c = craw
             if MERGE[0]:
                 return SymFloat(FIN, z3.If(c, s.r, -s.r))
             return s if ENGINE.branch(c) else -s
@@ -796,12 +811,13 @@ class SymFloat:
                 e = a == b
             else:
                 e = a != b
+            raw = e
             e = z3.simplify(e)
             if z3.is_true(e):
                 return True
             if z3.is_false(e):
                 return False
-            return SymBool(e)
+            return SymBool(e if SIMPLIFY[0] else raw)
         ka = {NINF: -1, FIN: 0, PINF: 1}[s.k]
         kb = {NINF: -1, FIN: 0, PINF: 1}[o.k]
         return {"lt": ka < kb, "le": ka <= kb, "gt": ka > kb, "ge": ka >= kb,
@@ -841,6 +857,13 @@ class SymFloat:
         return s
 
 
+SIMPLIFY = [True]  # False: keep every arithmetic term exactly as the code built it (needed by sx/fp.py)
+
+
+def _s(e):
+    return z3.simplify(e) if SIMPLIFY[0] else e
+
+
 MERGE = [True]     # merge min/max/abs/clip of finite operands into ite terms
 LIN_DIV = [True]   # compare quotients by cross-multiplication (keeps queries linear when one side is constant)
 OPAQUE_NORM = [False]  # norm of >= 2 symbolic entries: fresh real t with max|c_i| <= t <= sum|c_i| (over-approximation)
@@ -871,7 +894,7 @@ def _clear_div(a, b, op):
             n, d = a.arg(0), a.arg(1)
             sd = _sign(d)
             if sd == 0:
-                raise EngineError("comparison of a quotient with zero denominator")
+                raise PathAbort("zero denominator: infeasible (the quotient was built under d != 0)")
             a, b = n, z3.simplify(b * d)
             if sd < 0:
                 op = _FLIP[op]
@@ -879,7 +902,7 @@ def _clear_div(a, b, op):
             n, d = b.arg(0), b.arg(1)
             sd = _sign(d)
             if sd == 0:
-                raise EngineError("comparison of a quotient with zero denominator")
+                raise PathAbort("zero denominator: infeasible (the quotient was built under d != 0)")
             a, b = z3.simplify(a * d), n
             if sd < 0:
                 op = _FLIP[op]
